@@ -240,6 +240,7 @@ pub fn run(args: &Args) {
         st.add("from_int_conversions", info.int_conversions as usize);
         st.max("max_twiddle_orders", info.orders.len());
         st.max("max_discovery_rounds", info.rounds);
+        st.add("constants_converted_as_rounded_rationals", info.rounded_rational_consts);
         if !planned.simd_ok.is_empty() {
             st.violation(&prop, "fpx", &format!("type=Fp n={}", n), vec![
                 ("what", J::s("a SIMD planner returned Ok for a custom element type")),
